@@ -1060,6 +1060,8 @@ class DeadPath(Exception):
 
 
 _FEAS = {}
+LOOP_STATS = {} if os.environ.get('LLSYM_MERGE_STATS') else None
+MERGE_STATS = {} if os.environ.get('LLSYM_MERGE_STATS') else None
 # Back edges are followed while their guard is not *syntactically* false (loop counters of the model
 # containers are concrete or constant-leaf ite trees, so loops end without solver calls); the residual
 # guard after `unwind` iterations is the unwinding assertion. Solver-based pruning is optional.
@@ -1195,6 +1197,7 @@ class Exec:
         self.res = Result()
         self.depth = 0
         self.loopinfo = {}
+        self.frames = []
         self.gmem = Mem()
         self._init_globals()
 
@@ -1387,6 +1390,8 @@ class Exec:
                     byoff[o] = g_or(byoff.get(o, False), gg)
                 for o, gg in byoff.items():
                     gg = g_and(g, gg)
+                    if gg is not False and gg is not True and st.g is not True and sx.contradicts(st.g, gg):
+                        continue
                     if gg is not False:
                         out.append((gg, oid, o))
                 continue
@@ -1547,7 +1552,11 @@ class Exec:
                     continue
                 if ob.b is not mine.b:
                     w = mem.wobj(oid)
+                    if MERGE_STATS is not None:
+                        n0 = sx._CNT[0]
                     w.b = merge_cells(s.g, ob.b, w.b)
+                    if MERGE_STATS is not None:
+                        MERGE_STATS[ob.name] = MERGE_STATS.get(ob.name, 0) + sx._CNT[0] - n0
         return State(g, env, mem)
 
     # ---- CFG helpers
@@ -1648,7 +1657,18 @@ class Exec:
         entry = f.order[0]
         st0 = State(st_in.g, env, st_in.mem)
         rets = []
+        self.frames.append([])
         self.exec_region(f, set(rpo), entry, {entry: [st0]}, rets, None, loops, idx)
+        dead = self.frames.pop()
+        if dead and self.depth > 1:
+            # the callee's stack slots die with the call: drop them so that later joins do not merge them
+            out = []
+            for g, v, mem in rets:
+                m2 = mem.fork()
+                for oid in dead:
+                    m2.objs.pop(oid, None)
+                out.append((g, v, m2))
+            rets = out
         self.depth -= 1
         return rets
 
@@ -1686,10 +1706,19 @@ class Exec:
                     exits.setdefault(tgt, []).append(s2)
 
     def exec_loop(self, f, header, body, ins, pending_outer, rets, loops, idx, outer_region, outer_exits):
+        """unroll a natural loop. Iterations whose continuation does not depend on symbolic data (the back
+        edge carries exactly the guard the iteration started with) are free; at most K iterations may be
+        decided by a symbolic condition, the residual back-edge guard is the unwinding assertion."""
         cur = ins
-        for it in range(self.K + 1):
+        sym_iters = 0
+        total = 0
+        while True:
+            if LOOP_STATS is not None:
+                kk = (demangle(f.name)[-50:], header)
+                LOOP_STATS[kk] = LOOP_STATS.get(kk, 0) + 1
             exits = {}
             pend = {header: cur}
+            g_in = cur[0].g if len(cur) == 1 else None
             self.exec_region(f, body, header, pend, rets, exits, loops, idx)
             back = exits.pop(header, [])
             for tgt, sts in exits.items():
@@ -1700,21 +1729,25 @@ class Exec:
                         raise Unsupported('loop exit leaves function')
                     outer_exits.setdefault(tgt, []).extend(sts)
             back = [s for s in back if s.g is not False]
-            if back and it >= 1 and PRUNE_BACKEDGES:
-                if os.environ.get('LLSYM_DEBUG'):
-                    t_ = time.time()
+            if back and sym_iters >= 1 and PRUNE_BACKEDGES:
                 back = [s for s in back if feasible(s.g)]
-                if os.environ.get('LLSYM_DEBUG'):
-                    sys.stderr.write('feas loop %s %s it=%d -> %d (%.2fs)\n' % (demangle(f.name)[-60:], header, it, len(back), time.time() - t_))
             if not back:
                 return
+            total += 1
+            concrete = len(back) == 1 and g_in is not None and back[0].g is g_in
+            if not concrete:
+                sym_iters += 1
+            if sym_iters > self.K or total > 20000:
+                break
             cur = back
-        for s in cur:
+        for s in back:
             self.res.unwind.append(s.g)
 
     def edge_state(self, f, src, tgt, st, g):
         """apply phi assignments of tgt for edge src->tgt"""
         g2 = g_simpl(g_and(st.g, g))
+        if g2 is not False and g2 is not True and st.g is not True and g is not True and sx.contradicts(st.g, g):
+            g2 = False
         if g2 is False:
             return State(False, st.env, st.mem)
         blk = f.blocks[tgt]
@@ -1828,6 +1861,8 @@ class Exec:
                 raise Unsupported('symbolic alloca count')
             key = ('alloca', f.name, ins.res, self.depth)
             oid = self.new_obj(st.mem, ty_size(t) * n, '%s:%s' % (f.name[-30:], ins.res))
+            if self.frames:
+                self.frames[-1].append(oid)
             env[ins.res] = Ptr.to(oid)
             return
         if op == 'br':
@@ -1937,10 +1972,41 @@ class Exec:
     def call(self, f, st, ins):
         rt, callee, args = ins.a
         cv = self.val(st, PTR, callee)
+        if isinstance(cv, Ptr):
+            cv = cv.flat()
         if not is_c(cv):
-            cv = simp(cv)
-        if not is_c(cv):
-            raise Unsupported('indirect call through symbolic pointer')
+            # indirect call through a small set of function addresses (e.g. Box<dyn Trait> reassigned on a
+            # symbolic branch): run every candidate under its guard and join the results
+            lv = enum_values(cv)
+            if lv is None:
+                raise Unsupported('indirect call through symbolic pointer')
+            argv = [None if t is None else self.val(st, t, v) for t, v in args]
+            states = []
+            g0 = st.g
+            for g, addr in lv:
+                name = self.addr_fn.get(addr)
+                gg = g_and(g0, g)
+                if gg is False or (gg is not True and g0 is not True and g is not True and sx.contradicts(g0, g)):
+                    continue
+                if name is None:
+                    self.res.ub.append(gg)
+                    continue
+                name = self.mod.aliases.get(name, name)
+                if name not in self.mod.funcs:
+                    raise Unsupported('indirect call to external %s' % name)
+                sub = State(gg, None, st.mem.fork())
+                for rg, rv, rmem in self.run_function(self.mod.funcs[name], argv, sub):
+                    states.append(State(rg, {'__ret': rv} if rv is not None else {}, rmem))
+            if not states:
+                st.g = False
+                return ('stop',)
+            m = self.merge_states(states, {'__ret': getattr(rty(rt), 'bits', None) if not isinstance(rt, VoidTy) else None})
+            st.g = m.g
+            st.mem.objs = m.mem.objs
+            st.mem.owned = set()
+            if ins.res is not None:
+                st.env[ins.res] = m.env['__ret']
+            return
         name = self.addr_fn.get(cv)
         if name is None:
             raise Unsupported('call to non-function address 0x%x' % cv)
@@ -2019,6 +2085,16 @@ class Exec:
     def intrinsic(self, st, ins, name, args, argv):
         env = st.env
         n = name
+        if n.startswith('@llvm.lifetime'):
+            # the slot's content is dead before lifetime.start and after lifetime.end: make it undef so that
+            # joins have nothing to merge for it
+            pv = argv[-1]
+            if isinstance(pv, Ptr) and len(pv.alts) == 1 and pv.alts[0][0] is True and is_c(pv.alts[0][2]) and pv.alts[0][2] == 0:
+                oid = pv.alts[0][1]
+                if oid in st.mem.objs and not st.mem.objs[oid].ro:
+                    o = st.mem.wobj(oid)
+                    o.b = [None] * o.size
+            return
         if n.startswith(('@llvm.lifetime', '@llvm.experimental.noalias', '@llvm.assume', '@llvm.dbg',
                          '@llvm.invariant', '@llvm.prefetch', '@llvm.donothing')):
             return
@@ -2060,6 +2136,17 @@ class Exec:
                 ov = sx.cmp_('ne', sx.extract(w, 2 * bits - 1, bits), 0, bits)
             env[ins.res] = [r, ov]
             return
+        m = re.match(r'@llvm\.(sadd|ssub|smul)\.with\.overflow\.i(\d+)', n)
+        if m:
+            o, bits = m.group(1), int(m.group(2))
+            x, y = argv[0], argv[1]
+            w = 2 * bits
+            xs, ys = sx.sext(x, bits, w), sx.sext(y, bits, w)
+            full = sx.bin_({'sadd': 'add', 'ssub': 'sub', 'smul': 'mul'}[o], xs, ys, w)
+            r = sx.extract(full, bits - 1, 0)
+            ov = sx.cmp_('ne', sx.sext(r, bits, w), full, w)
+            env[ins.res] = [r, ov]
+            return
         m = re.match(r'@llvm\.(uadd|usub)\.sat\.i(\d+)', n)
         if m:
             o, bits = m.group(1), int(m.group(2))
@@ -2069,6 +2156,14 @@ class Exec:
                 env[ins.res] = ite(_gn(sx.cmp_('ult', r, x, bits)), mask(bits), r, bits)
             else:
                 env[ins.res] = ite(_gn(sx.cmp_('ult', x, y, bits)), 0, sx.bin_('sub', x, y, bits), bits)
+            return
+        m = re.match(r'@llvm\.(scmp|ucmp)\.i(\d+)\.i(\d+)', n)
+        if m:
+            o, rb, ab = m.group(1), int(m.group(2)), int(m.group(3))
+            x, y = argv[0], argv[1]
+            lt = _gn(self.icmp('slt' if o == 'scmp' else 'ult', x, y, ab))
+            gt = _gn(self.icmp('sgt' if o == 'scmp' else 'ugt', x, y, ab))
+            env[ins.res] = ite(lt, mask(rb), ite(gt, 1, 0, rb), rb)
             return
         m = re.match(r'@llvm\.(ctpop|ctlz|cttz)\.i(\d+)', n)
         if m:
